@@ -278,7 +278,13 @@ func c18Templates(r *core.Rand) (map[string]string, bool) {
 	srcs := map[string]string{"inc": "{% set got = got|default([])|merge([1]) %}{% set xs = [] %}{% for i in got %}{% set i = 0 %}{% endfor %}{{ got|sort|reverse|join }}{{ passed|sort|join }}",
 		"lib": "{% macro mut(a, b) %}{% set a = a|merge([7])|sort %}{% set b = b|reverse %}{{ a|join }}{{ b|join }}{% endmacro %}"}
 	var t string
-	switch r.Intn(21) {
+	switch r.Intn(22) {
+	case 21:
+		// the function forms of tags (include(), block(), source() ... whatever the engine offers under those names) given the
+		// caller's maps as their variables; an engine that does not have them fails the render, which modifies nothing either
+		fv := []string{"m", "ym", "ym.page", "st.Meta", "pairs", "row", "yl[0]", "nm"}[r.Intn(8)]
+		t = []string{"{{ include('inc', " + fv + ") }}", "{% for item in [m, ym, pairs] %}{{ include('inc', item) }}{% endfor %}", "{{ include('inc', " + fv + ", true) }}{{ include('inc') }}",
+			"{% set got = " + fv + " %}{{ include('inc', got) }}", "{{ include(['nope', 'inc'], " + fv + ", with_context = true) }}"}[r.Intn(5)]
 	case 20:
 		// values of the caller's that can be read only once if read the wrong way (buffers, readers): printing them, plainly
 		// or through filters, reads their text and leaves them as they are
